@@ -2,6 +2,11 @@ import warnings
 from numbers import Real
 
 import numpy as np
+try:
+    from sklearn.utils.validation import validate_data as _validate_data
+except ImportError:  # scikit-learn < 1.6
+    def _validate_data(estimator, *args, **kwargs):
+        return estimator._validate_data(*args, **kwargs)
 from sklearn.metrics.pairwise import PAIRWISE_KERNEL_FUNCTIONS
 from sklearn.neural_network._stochastic_optimizers import SGDOptimizer
 from sklearn.utils._param_validation import Interval, StrOptions
@@ -151,7 +156,7 @@ class SparseLinearModel(LinearModel):
         return np.linalg.norm(self.W_, axis=1, ord=2).sum()
 
     def fit(self, X, y=None):
-        self._validate_data(X)
+        _validate_data(self, X)
         self.groups_ = check_groups(self.groups, X.shape[1])  # Intercept to check that group forms a partition
         return super().fit(X, y)
 
